@@ -7,7 +7,7 @@ INIT = (('acct_sub', '30000'), ('create', '1'), ('create', '2'),
         ('pf_sub', '1', '10000'), ('pf_sub', '2', '10000'))
 INITIALS = [
     INIT,
-    INIT + (('submit', '1', 'A', 5), ('submit', '2', 'B', -3), ('tick', 2)),   # long 5 A / short 3 B
+    INIT + (('submit', '1', 'A', 5), ('submit', '2', 'Bq', -3), ('tick', 2)),   # long 5 A / short 3 B
 ]
 
 
@@ -16,10 +16,10 @@ QTYS = (2, -2, 3, -3, 5, -5)
 
 def alphabet(m):
     evs = []
-    for a in ('A', 'B'):
+    for a in ('A', 'Bq'):
         for q in QTYS:
             evs.append(('submit', '1', a, q))
-    evs += [('submit', '2', 'B', 3), ('submit', '2', 'B', -3)]
+    evs += [('submit', '2', 'Bq', 3), ('submit', '2', 'Bq', -3)]
     ticks = {m.clock}
     if m.clock + 1 < len(bm.INSTANTS):
         ticks.add(m.clock + 1)
@@ -28,10 +28,10 @@ def alphabet(m):
         ticks.add(j)
     evs += [('tick', j) for j in sorted(ticks)]
     evs += [('quotes', 0), ('quotes', 1), ('quotes', 2)]
-    for a in ('A', 'B'):
+    for a in ('A', 'Bq'):
         for px in ('9.5', '12.25'):
             evs.append(('mark', '1', a, px))
-    evs.append(('mark', '2', 'B', '12.25'))
+    evs.append(('mark', '2', 'Bq', '12.25'))
     return evs
 
 
